@@ -563,28 +563,49 @@ def ob_rpc_only_through_layer(report, prop=None):
         prog = ex.prog
         target = find_method(prog, 'Peer', 'do_rpc')
         svc_call = find_method(prog, 'Peer', 'call', trait='Service')
-        callers = []
+        # call graph of the crate (a closure / async block counts as called by the function containing it)
+        edges = {}          # callee raw -> set(caller raw)
         for raw, fs in prog.fns.items():
             for f in fs:
                 if not f.blocks:
                     continue
+                m = re.match(r'^(.*)::\{closure#\d+\}$', raw)
+                if m:
+                    edges.setdefault(raw, set()).add(m.group(1))
                 for blk in f.blocks.values():
                     for st, _ in blk:
                         if st and st[0] == 'call' and isinstance(st[2], str):
                             g = ex.resolve(st[2])
-                            if g is not None and g.raw == target.raw:
-                                callers.append(f)
-        callers = list({f.raw: f for f in callers}.values())
-        if not callers:
+                            if g is not None and g.blocks:
+                                edges.setdefault(g.raw, set()).add(raw)
+        if not edges.get(target.raw):
             return ob.done([ex], 'inconclusive', 'Peer::do_rpc has no caller in the crate', paths=0)
-        bad = [f for f in callers if not (f.raw == svc_call.raw or f.raw.startswith(svc_call.raw + '::{closure#'))]
-        if bad:
-            o = ob.done([ex], 'violated', f'{bad[0].name} calls Peer::do_rpc directly, not through <Peer as Service>::call: RPCs issued that way bypass the outbound request layer - neither the '
-                        'configured outbound timeout nor the request\'s timeout header bounds them at the caller', {'direct_callers': [f.name for f in callers]}, key='rpc-bypasses-layer', paths=len(callers))
-            o.replay = write_replay(prop, o.name, {'direct_callers': [f.name for f in callers]})
+        in_svc = lambda r: r == svc_call.raw or r.startswith(svc_call.raw + '::{closure#')
+        # functions from which do_rpc is reachable WITHOUT passing through <Peer as Service>::call
+        reach, todo, via = {target.raw}, [target.raw], {}
+        while todo:
+            x = todo.pop()
+            for c in edges.get(x, ()):
+                if c not in reach and not in_svc(c):
+                    reach.add(c)
+                    via[c] = x
+                    todo.append(c)
+        entries = [r for r in reach if r != target.raw and not (edges.get(r, set()) - {r})]      # nothing in the crate calls them: API entry points
+        names = lambda r: prog.fns[r][0].name
+        if entries:
+            e0 = sorted(entries)[0]
+            chain, x = [names(e0)], e0
+            while x in via:
+                x = via[x]
+                chain.append(names(x))
+            o = ob.done([ex], 'violated', f'{chain[0]} reaches Peer::do_rpc without going through <Peer as Service>::call ({" -> ".join(chain)}): RPCs issued that way bypass the outbound request layer - '
+                        'neither the configured outbound timeout nor the request\'s timeout header bounds them at the caller', {'chain': chain, 'entry_points': sorted(names(e) for e in entries)},
+                        key='rpc-bypasses-layer', paths=len(reach))
+            o.replay = write_replay(prop, o.name, {'chain': chain})
             return o
-        ob.done([ex], 'held', '', {'direct_callers': [f.name for f in callers]}, paths=len(callers))
-    return guarded(report, 'rpc_only_through_outbound_layer', 'call graph (MIR): the only crate-local caller of Peer::do_rpc is the future built by <Peer as Service>::call (which wraps it in the outbound layer, '
+        ob.done([ex], 'held', '', {'direct_callers': sorted(names(c) for c in edges.get(target.raw, ())), 'functions_reaching_do_rpc_outside_service_call': sorted(names(r) for r in reach if r != target.raw)},
+                paths=len(reach))
+    return guarded(report, 'rpc_only_through_outbound_layer', 'call graph (MIR): every chain of crate-local calls from an API entry point to Peer::do_rpc passes through <Peer as Service>::call (which wraps it in the outbound layer, '
                    'checked by peer_call_through_outbound_layer)', ['Peer::do_rpc', '<Peer as Service>::call', 'every crate function (call sites)'], {'call graph': 'static calls as the executor resolves them'}, body)
 
 
